@@ -255,6 +255,18 @@ def havoc_for_call(ex, st, pre, items, ctor_ghost=()):
                 if name != '$alloc' and name != '$srcs':
                     st.heap[name] = fresh('hv_' + name, st.heap[name].sort)
             continue
+        if kind == 'family':
+            names = set(st.heap)
+            for cname, ci in ex.reg.classes.items():
+                if ex._family(cname) == v:
+                    for f, fpt in list(ci.fields.items()) + list(ci.ghost.items()):
+                        nm = 'F:%s.%s' % (cname, f)
+                        ex.harr(st, nm, ArrS(INT, sort_of(fpt)))
+                        names.add(nm)
+            for nm in sorted(names):
+                if ex._family_array(nm, v) and not nm.endswith('.pairs') and not nm.endswith('.strict'):
+                    st.heap[nm] = fresh('hfam_' + nm.split('.')[-1].replace(':', '_').replace('(', '').replace(')', '').replace(' ', '_'), st.heap[nm].sort)
+            continue
         if kind == 'field':
             obj, fname = v
             name, fpt, arr = ex.field_arr(st, obj.pt.args[0], fname)
@@ -505,6 +517,9 @@ def to_str(ex, st, v, n):
     if k == 'key':
         smt.declare_fun('key_str', ['Key'], STR)
         return App('key_str', (v.t,), STR)
+    if k == 'jkey':
+        smt.declare_fun('jkey_str', ['JKey'], STR)
+        return App('jkey_str', (v.t,), STR)
     raise OutOfSubset('str() of %r at line %d' % (v.pt, getattr(n, 'lineno', 0)))
 
 
